@@ -96,6 +96,15 @@ func vdirectNearest(c *stringclassifier.Classifier, q string) string {
 	return fmt.Sprintf("%s|%.9f", strings.TrimSuffix(m.Name, ".header"), m.Confidence)
 }
 
+// the names License.MultipleMatch filters by a phrase expected in the query (forbidden.go)
+var vforbiddenNames = map[string]bool{
+	licenseclassifier.AGPL10: true, licenseclassifier.AGPL30: true,
+	licenseclassifier.CCBYNC10: true, licenseclassifier.CCBYNC20: true, licenseclassifier.CCBYNC25: true, licenseclassifier.CCBYNC30: true, licenseclassifier.CCBYNC40: true,
+	licenseclassifier.CCBYNCND10: true, licenseclassifier.CCBYNCND20: true, licenseclassifier.CCBYNCND25: true, licenseclassifier.CCBYNCND30: true, licenseclassifier.CCBYNCND40: true,
+	licenseclassifier.CCBYNCSA10: true, licenseclassifier.CCBYNCSA20: true, licenseclassifier.CCBYNCSA25: true, licenseclassifier.CCBYNCSA30: true, licenseclassifier.CCBYNCSA40: true,
+	licenseclassifier.WTFPL: true,
+}
+
 func TestVerifC15(t *testing.T) {
 	o := newVout()
 	defer o.close()
@@ -243,17 +252,67 @@ func TestVerifC15(t *testing.T) {
 			}
 			var wantKept stringclassifier.Matches
 			for _, m := range wantM {
-				if keep[fmt.Sprintf("%s|%d|%d", m.Name, m.Offset, m.Extent)] {
+				// only a license with a forbidden-phrase expression can have been filtered out
+				if keep[fmt.Sprintf("%s|%d|%d", m.Name, m.Offset, m.Extent)] || !vforbiddenNames[m.Name] {
 					wantKept = append(wantKept, m)
 				}
 			}
 			if time.Since(t1) > 1200*time.Millisecond {
 				deadlineSkips++
-			} else if what == "" && vshow(gotM) != vshow(wantKept) {
+			} else if what == "" && (len(gotM) > 0 || lc.NearestMatch(norm) != nil) && vshow(gotM) != vshow(wantKept) {
+				// (NearestMatch == nil: the common-word gate of License, which MultipleMatch applies to the
+				// normalised query, rejected it — that gate is not the archive's)
 				what = fmt.Sprintf("query %d: archive-built MultipleMatch %s, directly built %s", qi, vshow(gotM), vshow(wantM))
 			}
 		}
 		o.verdict("C15", id, what == "", true, strings.Join(files, ","), map[string]interface{}{"what": what, "files": files})
+	}
+	// two-license archives in both orders, queried with a lightly edited copy of each license: what the
+	// archive stores per license (name, text, search set) must be that license's own, whichever comes last
+	pairs := [][2]string{{"MIT.txt", "GPL-3.0.txt"}, {"ISC.txt", "Apache-2.0.txt"}, {"BSD-3-Clause.txt", "MPL-2.0.txt"}}
+	for pi, pr := range pairs {
+		if !vthorough() && pi != int(vseed()%3) && pi != 0 {
+			continue
+		}
+		for ord := 0; ord < 2; ord++ {
+			files := []string{pr[ord], pr[1-ord]}
+			id := fmt.Sprintf("pair%d_%d", pi, ord)
+			lc, err := varchive(files)
+			if err != nil {
+				o.verdict("C15", id, false, true, id, map[string]interface{}{"what": "archive does not load: " + err.Error(), "files": files})
+				continue
+			}
+			dc := vdirect(files)
+			what := ""
+			for _, f := range files {
+				ws := strings.Fields(licenseclassifier.TrimExtraneousTrailingText(vread(f)))
+				if len(ws) > 900 {
+					ws = ws[:900]
+				}
+				for j := range ws {
+					if j%23 == 11 {
+						ws[j] = "zzz"
+					}
+				}
+				q := "intro words " + strings.Join(ws, " ")
+				t1 := time.Now()
+				gotM := lc.MultipleMatch(q, true)
+				var wantM stringclassifier.Matches
+				for _, v := range dc.MultipleMatch(vnormalize(q)) {
+					if lc.WithinConfidenceThreshold(v.Confidence) {
+						v.Name = strings.TrimSuffix(v.Name, ".header")
+						wantM = append(wantM, v)
+					}
+				}
+				sort.Sort(wantM)
+				if time.Since(t1) > 1200*time.Millisecond {
+					deadlineSkips++
+				} else if what == "" && vshow(gotM) != vshow(wantM) {
+					what = fmt.Sprintf("edited %s: archive-built MultipleMatch %s, directly built %s", f, vshow(gotM), vshow(wantM))
+				}
+			}
+			o.verdict("C15", id, what == "", true, id, map[string]interface{}{"what": what, "files": files})
+		}
 	}
 	// duplicate names must be a load error, not a silent overwrite
 	_, err := varchive([]string{"MIT.txt", "MIT.txt"})
